@@ -134,7 +134,7 @@ REGISTRY = {
     ),
     "C10": dict(
         jobs=lambda tier, seed: __import__("vf.props.history", fromlist=["x"]).configs_c10(tier, seed),
-        job_of_config=lambda cfg: ("vf.props.history", "c10_product" if cfg.get("product") else ("c10_formats" if cfg.get("formats") else "c10")),
+        job_of_config=lambda cfg: ("vf.props.history", "c10_product" if cfg.get("product") else ("c10_formats" if cfg.get("formats") else ("c10_implicit" if cfg.get("implicit") else "c10"))),
         technique="request schedules (element and slice requests over H_tilde, U, U_inv, optionally interleaved between two computations built from the same input objects) are the enumerated paths; "
         "values stay symbolic and after every request z3 decides value != fresh-computation value (syntactically identical z3 terms discharged structurally, verdicts cached); "
         "identity snapshots of all input arrays and of every value already handed out are re-checked after each schedule",
@@ -143,7 +143,7 @@ REGISTRY = {
             "sampled histories of length 4-6 incl. two interleaved computations; carrier A with full-diag / symmetric / asymmetric masks: exhaustive k=2 and sampled k=5",
             "thorough": "k=3 exhaustive over the scalar alphabet of 1|1 (13824 schedules per mode), 10x more sampled long histories",
         },
-        assumptions=COMMON_ASSUMPTIONS + ["implicit (LinearOperator) mode histories are covered by C06's harness only for ascending schedules"],
+        assumptions=COMMON_ASSUMPTIONS + ["implicit (LinearOperator) mode histories: exhaustive k=2 on a 3-dim problem and sampled k=4 on a 4-dim problem, with the exact-LU stub of C06"],
         timeout_s={"quick": 400, "thorough": 1800},
     ),
     "C11": dict(
